@@ -8,7 +8,8 @@ JInit == i \in 1..Len(Recs)
 JNext == UNCHANGED i
 R == Recs[i]
 Chk(name, k, ok) == ok \/ PrintT(<<"FAIL", R.id, name \o "@" \o ToString(k)>>)
-JInv == \A k \in 1..Len(R.obs.steps) :
+JInv == /\ Chk("C09_Configurable", 0, C09_Configurable(R))
+        /\ \A k \in 1..Len(R.obs.steps) :
           LET s == R.obs.steps[k] IN
           /\ Chk("C09_AllDead", k, AllDeadS(R, s))
           /\ Chk("C09_RunIsolated", k, RunIsolatedS(R, s))
